@@ -42,14 +42,21 @@ impl Prop for C04 {
     }
     fn budget(&self, tier: Tier) -> u64 {
         match tier {
-            Tier::Quick => 150_000,
-            Tier::Thorough => 4_000_000,
+            Tier::Quick => 400_000,
+            Tier::Thorough => 6_000_000,
         }
     }
     fn required_labels(&self) -> Vec<&'static str> {
         vec!["high_address", "oversize", "max_size", "ok", "process_packet_response"]
     }
     fn enumerate(&self, tier: Tier, shard: usize, nshards: usize, f: &mut dyn FnMut(PktCase)) {
+        let mut idx = 0usize;
+        super::enumer::for_each_enc_case(tier, false, true, true, &mut |env, call| {
+            idx += 1;
+            if idx % nshards == shard {
+                f(PktCase::Enc(EncCase { env, call }));
+            }
+        });
         if tier != Tier::Thorough {
             return;
         }
@@ -65,7 +72,11 @@ impl Prop for C04 {
         }
     }
     fn enumerated_desc(&self, tier: Tier) -> Option<String> {
-        (tier == Tier::Thorough).then(|| "all 128x128 (source, destination) 7-bit address pairs for 4 representative encoders (control request, control response, IANA vendor message, secured message): 65536 cases".to_string())
+        let mut d = format!("{} (bodies up to 262 bytes, i.e. beyond the frame limit)", ENC_ENUM_DESC);
+        if tier == Tier::Thorough {
+            d.push_str("; all 128x128 (source, destination) 7-bit address pairs for 4 representative encoders (control request, control response, IANA vendor message, secured message): 65536 cases");
+        }
+        Some(d)
     }
     fn run(&self, case: &PktCase) -> CaseResult {
         let mut r = CaseResult::default();
